@@ -234,6 +234,9 @@ func checkC12(c *core.Check) {
 				j := s.job
 				j.ID = fmt.Sprintf("s%dp%dk%d", si, p, k)
 				j.Package = "gen"
+				// every fourth process generates in surroundings that are none of the inputs (other configs and specs
+				// one directory up and down, another working directory, TZ / LANG / GOAG_* variables)
+				j.Surround = p%4 == 2
 				ch = append(ch, j)
 			}
 			chains = append(chains, ch)
